@@ -28,6 +28,81 @@ CLAIMED = {
     },
 }
 
+
+def _m(text, note, ref):
+    return {"text": text, "design_ref": "DESIGN.md §7 " + ref, "note": GENERIC_NOTE + note, "technique": TECH}
+
+
+def _r(text, note, ref):
+    return {"text": text, "design_ref": "DESIGN.md §7 " + ref, "note": GENERIC_NOTE + note, "technique": TECH_R}
+
+
+TECH_R = ("machine-checked proof in Coq of specification, witness checker and reference decider/optimiser (all sizes) + "
+          "implementation compared with the extracted reference on bounded inputs and its witnesses checked at every size")
+
+CLAIMED.update({
+    "C01": _m("Coq theorems (every well-formed instance, any size, Closed under the global context) about a mirror model of "
+              "OrdinalInstance.write/parse and PrefLibInstance.parse_metadata: write->parse round trip through readlines and through "
+              "splitlines (= the stably sorted view of the instance), non-increasing multiplicities in file order, byte-for-byte "
+              "idempotence of the second write, tokenizer/class construction inverting the ballot printer for every tie arrangement. "
+              "Tied to the code on every run: model-parse(impl-write), impl-parse(model-write), byte equality of both writers, "
+              "tokenizer vs re.findall, histories on one object.",
+              "Text = code points; ASCII digits only for int()/\\d; UTF-8 codec and CPython regex engine exercised, not proved. "
+              "Instances with zero orders are outside the quantifier (shown not to survive: Example C01_example_no_order_fails).", "C01"),
+    "C02": _m("Coq invariant proof over all histories of the four append entry points (and populate_* = append_vote_map of any map of "
+              "strict orders): multiplicity table = counting function of the votes added, counters, alternative set/names, "
+              "duplicate-free order list, full_profile/vote_map views, data_type = infer_type agreeing with is_strict/is_complete and "
+              "the ballot-size statistics, sanity checker silent; regrouping/reordering invariance. Model tied to the code by replaying "
+              "histories through the real methods with 24 observables after every operation.",
+              "Reading: histories that add at least one vote (the fresh instance has data_type toi but infer_type soc: proved as "
+              "C02_fresh_type_refuted / C02_type_empty_refuted and documented in DESIGN §8 as degenerate, not alarmed on). "
+              "Set-iteration order of alternatives is not modelled (names compared as a set of pairs).", "C02"),
+    "C04": _r("Coq theorems: the single-crossing specification, a sequence checker and a witness checker proved equivalent to it, a "
+              "brute-force decider and a polynomial conflict-set decider both proved correct and complete for every size, heredity, "
+              "relabelling/reordering invariance, and the link to the Kendall-tau additivity test the code uses. is_single_crossing and "
+              "is_single_crossing_conflict_sets are compared with both references (exhaustive m<=4, chains with every choice of the first "
+              "two stored orders, switch-back negatives, n<m and n>=m paths); every returned sequence goes through the verified checker.",
+              "The implementation's sort/bucket strategy is not mirrored: it is tied to the proved references by differential runs only.", "C04"),
+    "C06": _m("Coq theorems for the seven rules (mirror models of singlewinner.py + decorators + is_approval): winner set = exactly the "
+              "maximisers (veto: minimisers) of the textbook per-voter score on the expanded profile (Copeland = contests won, SAV in exact "
+              "rationals), regrouping invariance, type guards give PreferenceIncompatibleError. Exhaustive (m<=3) and tie-heavy random "
+              "differential runs, every rule x every data type.",
+              "Assumes instance.orders == list(instance.multiplicity) (the invariant proved under C02); empty orders/classes excluded by wf_inst.", "C06"),
+    "C09": _m("Coq theorems (Section-generic in the weight codec, then instantiated for tokens): write->parse round trip of matching "
+              "instances (same edge set, weights, incident nodes, names, counts, num_edges = |edges|, num_voters = num_alternatives), "
+              "byte-for-byte idempotence, header_only, insertion sort correctness, type gate. Differential runs with random 64-bit "
+              "weights compared bitwise, exponent-notation weights, overwrite histories on one object.",
+              "float(repr(x)) == x and the character set of repr(x) are Section hypotheses tested on every generated weight, not proved.", "C09"),
+    "C12": _r("Coq theorems: minimum alternative-deletion and voter-deletion numbers defined by verified enumeration over the proved "
+              "single-peakedness decider (correct for every size), certificate checkers equivalent to 'deletion set of the reported size + "
+              "remaining profile single-peaked on the returned axis', certificate => upper bound, monotonicity under restriction (lower "
+              "bounds from small cores), invariance. Both ILPs (soc, toc) and k_alternative_deletion (soc) are compared with the reference "
+              "for m<=5/6 and their certificates checked up to m=10/12.",
+              "The ILP builders, CBC (max_gap 0.05) and the dynamic programme are not mirrored; fewer than 20 alternatives as the property requires.", "C12"),
+    "C13": _r("Coq theorems: single-peaked-on-a-tree specification, connectivity test, tree and witness checkers proved equivalent to the "
+              "spec (orientation/order of edges irrelevant), candidate-tree enumeration proved complete, decider correct for every size, "
+              "invariance. is_single_peaked_on_tree compared with the decider (exhaustive m<=4, random m<=7/8), every returned edge list "
+              "through the verified checker (planted trees up to m=30).",
+              "Trick's algorithm is not mirrored. A wrong False on a large profile is only seen on planted positives.", "C13"),
+    "C14": _m("Coq theorems for bucklin_voting_winner and fallback_voting_winner (mirror model with explicit fuel): winners = argmax of the "
+              "top-k* counts at the least depth reaching the strict-majority quota on the expanded profile (fallback: full approval counts "
+              "if none), fuel never exhausted (termination incl. single-alternative profiles), regrouping, guards. Exhaustive m<=3 and "
+              "random differential runs under a 10 s watchdog.",
+              "Termination of the real while loop is observed by the watchdog; the model proves the bounded loop never exhausts its fuel.", "C14"),
+    "C16": _m("Coq theorems about the autocorrect path of the ordinal and categorical parser models: duplicate-free ballot list, "
+              "multiplicity = sum over all lines of that ballot, counts recomputed, names pairwise distinct with first occurrences kept "
+              "(distinct ids), clean content gives the same instance with and without autocorrect; an independent 'expected' description "
+              "proved equal to the parser. Differential runs on generated dirty/clean text through parse_file and parse_str.",
+              "Reservation of names happens in parse_lines: direct callers of parse() bypass it (proved as ac_direct_parse_refuted; outside the "
+              "entry points the property names).", "C16"),
+    "C17": _m("Coq theorems about a mirror model of CategoricalInstance.from_ordinal (three truncation modes) and factorise_instance: "
+              "categories partition the ranked alternatives in rank order without splitting classes, the size rule for absolute truncators, "
+              "the class-count rule, padding, voter conservation when orders collapse, duplicate-free ballot list, factorise counts, "
+              "parameter guards. Exhaustive small and collapse-prone random differential runs.",
+              "Relative truncators: the per-order integer sizes int(ceil(len*t)) are computed by the harness with the same float arithmetic and "
+              "passed to the model; an empty truncator list is outside 'arbitrary positive values' (fo_partition_empty_list_refuted).", "C17"),
+})
+
 _PENDING = "not claimed yet: the model and check for this property are still being built (see DESIGN.md §12)"
 NOT_APPLICABLE = {f"C{i:02d}": _PENDING for i in range(1, 21) if f"C{i:02d}" not in CLAIMED}
 
